@@ -5,6 +5,7 @@ import (
 	"github.com/invopop/gobl/currency"
 	"github.com/invopop/gobl/l10n"
 	"github.com/invopop/gobl/num"
+	"github.com/invopop/validation"
 )
 
 // CategoryTotal groups together all rates inside a given category.
@@ -57,6 +58,29 @@ type Total struct {
 
 	// Precise sum in the background, in case needed for calculations
 	sum num.Amount
+}
+
+// Validate ensures the category totals of the tax total look correct.
+func (t *Total) Validate() error {
+	return validation.ValidateStruct(t,
+		validation.Field(&t.Categories),
+	)
+}
+
+// Validate ensures the rate totals of the category look correct.
+func (ct *CategoryTotal) Validate() error {
+	return validation.ValidateStruct(ct,
+		validation.Field(&ct.Rates),
+	)
+}
+
+// Validate ensures the country and extensions of the rate total, which may
+// have been provided by hand in a document reference, are defined.
+func (rt *RateTotal) Validate() error {
+	return validation.ValidateStruct(rt,
+		validation.Field(&rt.Country),
+		validation.Field(&rt.Ext),
+	)
 }
 
 // PreciseAmount contains the intermediary amount generated from the calculator
